@@ -7,9 +7,16 @@ CONFIG = {
                 "well-formed measurement/tag set is accepted by scanKey and yields the measurement plus tags sorted by escaped key whatever order they "
                 "were written in (hence the same FNV-64a HashID); a body of closed lines (every line without newline/quote is closed, however malformed) "
                 "parses to the concatenation of the per-line results; SafeCalcTime scales by the documented unit exactly or errors (no wrap-around); "
+                "timestamp_exact_or_rejected: for EVERY timestamp token and precision string the request 'm v=1 <ts>' yields one point at exactly "
+                "text_value*unit (computed in Z) when that lies in [MinNanoTime, MaxNanoTime] and one error otherwise, and for every line an accepted "
+                "point carries exactly the instant its timestamp token denotes (safeSignedMult modelled with its int64 product taken mod 2^64); "
+                "hinted_writes_exactly_once: if the hinted-handoff queue holds in any order the marshalWrite blocks of the acknowledged WriteShard "
+                "calls, every block decodes and the decoded batches are the acknowledged ones, each once; "
                 "decimal int64 text parses back; MarshalBinary/NewPointFromBytes and the hinted-handoff framing round-trip. "
                 "Every run diffs model and executable spec against the real code on designed + generated lines (all precisions, numeric forms, "
-                "escapes, permuted/duplicate tags, multi-line bodies, malformed and non-UTF-8 input, truncated/mutated binary points). "
+                "escapes, permuted/duplicate tags, multi-line bodies, malformed and non-UTF-8 input, truncated/mutated binary points), on boundary "
+                "timestamps of every precision (accepted => exact product in Z and in range, out of range => rejected, evaluated on what the implementation did), "
+                "and on real NodeProcessor.WriteShard calls from 1-8 goroutines whose queue is then drained and decoded. "
                 "Partial: the text round trip of whole lines (field set scanning, field iterator) is checked on the implementation per run, "
                 "proved only for the key and the timestamp.",
         "note": "Trusts Coq kernel (incl. primitive Uint63 for decoding case literals), genconsts, the harness; strconv.ParseFloat/AppendFloat enter "
@@ -20,29 +27,36 @@ CONFIG = {
     "harness": "h_c12",
     "level": "proof",
     "n": {"quick": 1600, "thorough": 30000},
+    "harness_timeout": {"quick": 900, "thorough": 3000},
     "shard": 350,
-    "extra_proof_files": [],
+    "extra_proof_files": ["TimeExact", "TimeLine", "HHWProofs"],
     "search_rounds": 2,
     "search_boost": 2,
     "rule": "corpus (witnesses of the 7 repaired defects, boundaries) then designed cases (numeric/time extremes, bool forms, duplicate and unsorted tags, "
-            "comments/blank lines, quoted newlines, every binary field-set shape, framing limits, each escape function on 15 fixed strings) then seeded generation: "
-            "60% ParsePointsWithPrecision bodies of 1-5 lines (structured valid lines rendered from an abstract point with random names over an alphabet rich in "
+            "comments/blank lines, quoted newlines, every binary field-set shape, framing limits, each escape function on 15 fixed strings; "
+            "for each precision n,u,ms,s,m,h the timestamps floor(x/unit)+{-1,0,1} and their negatives for x in 2^63-1, 2^63, MaxNanoTime, k*2^64, k*2^64+-2^63 (k=1,2), "
+            "zero/negative-zero/leading-zero/sign/19-20 digit/non-decimal texts; 4 concurrent hinted-handoff write sets) then seeded generation: "
+            "50% ParsePointsWithPrecision bodies of 1-5 lines (structured valid lines rendered from an abstract point with random names over an alphabet rich in "
             "',' ' ' '=' '\"' '\\\\' tab NUL and non-UTF-8 bytes, 0-5 tags in sorted or shuffled order plus a re-rendering in another order, 1-4 fields of every "
-            "type and numeric form, explicit/absent timestamp at one of 8 precision strings, extra whitespace; mutated structured lines; comments/blank lines; "
+            "type and numeric form, explicit/absent timestamp at one of 8 precision strings (1 in 7 at an edge of the range or of a 2^64 wrap, possibly out of range => the line must be rejected), extra whitespace; mutated structured lines; comments/blank lines; "
             "malformed lines from mutation, a special-character alphabet or raw bytes), 20% NewPointFromBytes (valid, truncated, bit-flipped, length-prefix limits, "
-            "crafted field sets and time words), 5% hh.unmarshalWrite, 2.5% WriteShardRequest.Points + write to a real shard, 10% the ten escape functions; "
-            "distinct = distinct input bytes+precision+default time; non-trivial = at least one accepted point (parse), >= 8 bytes (bin), non-empty input (others)",
+            "crafted field sets and time words), 10% 'm v=1 <ts>' lines (40% boundary values as above with k up to 4e6 and offset -3..3, 10% quotients of k*2^64 whose wrapped "
+            "product is a small in-range value, 10% random 19-20 digit texts, 10% special/non-decimal texts, 10% any int64, 5% damaged decimal, 15% in-range incl. leading zeros; "
+            "60% of them at u/ms/s/m/h), 5% hh.unmarshalWrite, 2.5% WriteShardRequest.Points + write to a real shard, 2.5% real hh.NodeProcessor.WriteShard "
+            "from 1-8 goroutines x 1-6 rounds with distinct batches (<= 240 points, string field 0-200 bytes), queue closed, reopened and drained, 7.5% the ten escape functions; "
+            "distinct = distinct input bytes+precision+default time; non-trivial = at least one accepted point (parse), >= 8 bytes (bin), an acknowledged batch (hhw), non-empty input (others)",
     "trusted_base": [
         "C12: strconv.ParseFloat is an oracle: per case the harness records the float64 bits real strconv returns for every token the scanner or the field iterator can hand to it; integer and boolean parsing, decimal printing and FNV-64a are modelled exactly",
         "C12: case byte strings are written as primitive Uint63 literals (7 bytes each) and decoded inside vm_compute; the theorems do not use primitive integers",
         "C12: per-point checks 'the printed point parses back to the same point' and 'NewPointFromBytes(MarshalBinary) / hh framing give the same point' are computed by the harness on the real code and enter check_case as booleans",
         "C12: time.Time (go1.23) sec/nsec/UnixNano/IsZero/MarshalBinary/UnmarshalBinary mirrored for UTC times; Truncate assumed to be floor to a multiple of the unit since the Unix epoch",
+        "C12: hinted-handoff concurrency: goroutine interleavings are whatever the Go scheduler produces in the run (a race is looked for, not excluded); the queue (segments, Append/Current/Advance) is used as is and is property C04's subject; WriteShard's splitting of batches above the 10 MiB segment size is not exercised here (batches are small, checked in Coq against hh.defaultSegmentSize)",
         "C12: constants, precision tables and escape tables are regenerated from models/points.go, time.go, inline_fnv.go, pkg/escape/bytes.go by genconsts on every run; Spec.v keeps its own copies of the published FNV constants and precision units",
     ],
     "modelled": "models/points.go scanLine, skipWhitespace, scanKey (scanMeasurement, scanTags*, insertionSort, duplicate passes, key rebuild), scanFields, scanNumber, "
                 "scanBoolean, scanTime, scanTo, scanToSpaceOr, scanFieldValue, walkFields, parsePoint, ParsePointsWithPrecision, SafeCalcTime, SetPrecision, the field iterator "
                 "and Fields(), String/AppendString, HashID, MarshalBinary/UnmarshalBinary/NewPointFromBytes, escape pairs, pkg/escape, hh.marshalWrite/unmarshalWrite, "
-                "WriteShardRequest.unmarshalPoints are modelled (theories/C12/{Base,Escape,Scan,Point}.v); NewPoint/MakeKey/Tags()/Name()/Split/Round and the tsdb write path are not modelled",
+                "WriteShardRequest.unmarshalPoints, NodeProcessor.WriteShard for batches below the segment size (one marshalWrite block per call, concurrent calls in any order) are modelled (theories/C12/{Base,Escape,Scan,Point}.v); NewPoint/MakeKey/Tags()/Name()/Split/Round and the tsdb write path are not modelled",
     "assumptions": ["strconv.ParseFloat(format(b)) = b is not needed by the proved theorems; float text enters only through the oracle",
                     "64-bit int (length prefixes of binary points are non-negative after conversion)",
                     "harness process runs with TZ such that no binary point in the generated stream uses the local zone other than UTC"],
